@@ -592,7 +592,12 @@ def check(w, case, b, gens):
                     for tt, _ in lst:
                         want.append(tt - prev)
                         prev = tt
-                if list(ps.arrivals[idx]) != want:
+                got = list(ps.arrivals[idx])
+                if not o.get('absolute', True) and want and len(got) in (len(want), len(want) - 1):
+                    # the statement does not say what the 'inter-arrival time' of a flow's first packet is measured
+                    # from (the library: from 0.0): that one sample is not constrained
+                    got = [want[0]] + got[len(got) - len(want) + 1:]
+                if got != want:
                     viol.append(('C08.5', 'sink %s index %r: arrivals %r, expected %r' % (name, idx, list(ps.arrivals[idx])[:6], want[:6])))
             if o.get('rec_waits', True):
                 want = [tt - f[4] for tt, f in lst]
